@@ -314,6 +314,11 @@ func (u *Universe) genMsg(r *rng, ti *TypeInfo, t byte, g genOpts) *Val {
 			out.L = append(out.L, zeroVal(sh))
 			continue
 		}
+		if len(msg.Fields) > 40 && r.intn(len(msg.Fields)) >= 10 {
+			// very wide messages (all 180 map codecs in one type): about ten populated fields per value
+			out.L = append(out.L, zeroVal(sh))
+			continue
+		}
 		out.L = append(out.L, u.genVal(r, sh, g))
 	}
 	if msg.Capture && g.unknownOK && r.intn(2) == 0 {
